@@ -36,3 +36,22 @@ claim('C08', 'deterministic simulation: seeded interleaving x lifetime search, d
 claim('C13', 'deterministic simulation with fault injection: fault plans (which user-function calls raise) x seeded interleavings x handler, "as if absent" differential + list model',
       'The user function of map/starmap/filter/scan raises on the (party, ordinal) pairs of a generated fault plan (none, first, last, consecutive, all of a key, random subsets) under K interleaved keys and key-reusing wrappers; at the tap behind the operator exactly one OnErrorMux per failing call in position and everything else as the list model of the non-failing items; ignore/router compared record by record with the same run where the failing items are filtered out in front of the operator; dead-letter order and completion; error.map in place; unhandled error surfaces as on_error with the prefix of the fault-free run.',
       DIFF_NOTE, 'DESIGN.md 4/C13')
+claim('C14', 'deterministic simulation: seeded interleaving of store-client scripts, dictionary model op by op + cross-index read-back invariant after every operation',
+      'Several simulated clients owning states of every data type (with/without default) issue add_key/set/get/del_key/iterate and add_map/get_map/iterate_map on sparse, descending and repeated indices against one StoreManager in scheduler-chosen order; dict model per state checked on every operation and all live slots of all states read back after every operation; map indices never collide with an index in use.',
+      TRUST, 'DESIGN.md 4/C14')
+BYTE_NOTE = TRUST + ' Reference decoders (gzip module, zstandard stream reader, str.decode, orjson) are trusted.'
+claim('C15', 'deterministic simulation with fault injection: seeded chunking schedules + sweep of every single cut and every truncation offset of each sampled stream',
+      'Real frame() output is concatenated, cut by seeded schedules (inside prefixes, at newlines, empty and 1-unit segments) and - for streams up to 300 units - at every single position, truncated at every offset, and fed through the real unframe(); items must round-trip, a trailing unterminated line is delivered at completion, an incomplete length-prefixed frame never is.',
+      BYTE_NOTE, 'DESIGN.md 4/C15')
+claim('C16', 'deterministic simulation with fault injection: seeded re-chunking schedules of the compressed bytes + truncation at every offset (streams <= 2 KiB)',
+      'Real compress() output (gzip, zstd; empty chunks, empty list, up to several internal buffers) is re-cut by seeded schedules incl. empty segments anywhere and swept single cuts, decompressed by the real decompress() and compared; reference decoders must accept the compressed bytes; every truncation must end in on_error, never on_completed.',
+      BYTE_NOTE, 'DESIGN.md 4/C16')
+claim('C17', 'deterministic simulation: seeded byte-level cut schedules biased to the inside of multi-byte sequences + sweep of every single cut',
+      'Strings over the full scalar range are encoded by the real encode() for utf-8/16/32/latin-1 (+sig, le, be), the bytes re-cut inside multi-byte sequences and surrogate pairs, decoded by the real decode(); joined text must be equal and the reference codec must agree (BOM once).',
+      BYTE_NOTE, 'DESIGN.md 4/C17')
+claim('C18', 'deterministic simulation (partial fit): simulated disk with short-read schedules through open_obj, seeded re-cutting of the character stream',
+      'Typed rows (negative/-0.0/exponent floats, strings with separators, quotes, escape chars, blank edges) x separators x escape chars are written by the real dump()/dump_to_file() and read back by the real load()/load_from_file() from a simulated disk whose read() returns short reads from a seeded schedule (and full-size reads on > 64 KiB images); rows must be equal field by field. Field content is ordinary generation; the simulated dimension is where the stream/file is cut.',
+      BYTE_NOTE, 'DESIGN.md 4/C18')
+claim('C19', 'deterministic simulation: simulated disk with short-read schedules under the four-stage streaming pipeline (file -> decompress -> decode -> unframe -> parse)',
+      'Dicts with nested values, 64-bit ints, floats, Unicode strings incl. newlines are written by the real json.dump_to_file(None/gzip/zstd) onto a simulated disk and read back by load_from_file through open_obj with seeded short reads (inside multi-byte characters, inside the compressed stream) and on multi-chunk files; items must be equal and in order.',
+      BYTE_NOTE, 'DESIGN.md 4/C19')
